@@ -801,7 +801,9 @@ func (vc *FuncVC) havocDesignators(env *Env, designators []string, callee string
 	for _, d := range designators {
 		if strings.HasPrefix(d, "comp:") {
 			// whole component by name pattern, e.g. comp:E!Int
-			st = st.havocOnly([]string{strings.TrimPrefix(d, "comp:")}, "assigns:"+callee)
+			c := strings.TrimPrefix(d, "comp:")
+			vc.registerFieldComp(c)
+			st = st.havocOnly([]string{c}, "assigns:"+callee)
 			continue
 		}
 		if d == "\\everything" || d == "\\opaque" {
@@ -1425,6 +1427,39 @@ func (vc *FuncVC) effectComps(label string) []string {
 	return out
 }
 
+// registerFieldComp makes sure a field component named in a contract ("F!<struct>!<field>") of a struct
+// this function has not touched (yet) is registered, by finding the struct among the loaded types.
+func (vc *FuncVC) registerFieldComp(comp string) {
+	if _, ok := vc.comps[comp]; ok || !strings.HasPrefix(comp, "F!") {
+		return
+	}
+	parts := strings.Split(strings.TrimPrefix(comp, "F!"), "!")
+	if len(parts) != 2 {
+		return
+	}
+	for _, sp := range vc.P.SSAPkgs {
+		scope := sp.Pkg.Scope()
+		for _, nm := range scope.Names() {
+			tn, ok := scope.Lookup(nm).(*types.TypeName)
+			if !ok {
+				continue
+			}
+			if _, isStruct := tn.Type().Underlying().(*types.Struct); !isStruct || vc.typeName(tn.Type()) != parts[0] {
+				continue
+			}
+			si := vc.structOf(tn.Type())
+			for i, f := range si.Fields {
+				if f.Name == parts[1] && !isStruct2(f.Type) {
+					vc.fieldComp(si, i, "")
+				}
+			}
+			return
+		}
+	}
+}
+
+func isStruct2(t types.Type) bool { return isStruct(t) }
+
 // ---------- loop prescan ----------
 
 // prescanLoops computes, for every loop, the set of heap components its body may write.
@@ -1660,6 +1695,7 @@ func (vc *FuncVC) designatorComps(con *Contract, sig *types.Signature, c *ssa.Ca
 	}
 	for _, d := range con.Assigns {
 		if strings.HasPrefix(d, "comp:") {
+			vc.registerFieldComp(strings.TrimPrefix(d, "comp:"))
 			comps = append(comps, strings.TrimPrefix(d, "comp:"))
 			continue
 		}
